@@ -12,12 +12,15 @@ else
 LDSAN :=
 endif
 LDLIBS := $(LIBDIR)/libsci.a -l:libsqlite3.a -l:liblapack.a -l:libblas.a -lgfortran -lm -lpthread -ldl
-SIMOBJ := $(OUT)/sim.o
+SIMOBJ := $(OUT)/sim.o $(OUT)/pristine.o
 HARNESSES := h_mt h_cv h_pca h_cpca h_sel h_live h_cont h_io
 
 all: $(addprefix $(OUT)/,$(HARNESSES))
 
 $(OUT)/sim.o: sim/sim.cpp sim/sim.h sim/prng.hpp
+	@mkdir -p $(OUT)
+	$(CXX) $(CXXFLAGS) -c $< -o $@
+$(OUT)/pristine.o: sim/pristine.cpp
 	@mkdir -p $(OUT)
 	$(CXX) $(CXXFLAGS) -c $< -o $@
 $(OUT)/vfs.o: sim/vfs.cpp sim/sim.h
